@@ -114,15 +114,6 @@ Section OneStep.
   Lemma other_task_in : forall tk', In tk' (pre ++ post) -> In tk' (rs_pending s).
   Proof. intros tk' H. rewrite HP. apply in_app_iff in H. apply in_app_iff. simpl. tauto. Qed.
 
-  Lemma NoDup_map_inj : forall {A B} (g : A -> B) l,
-    (forall x y, In x l -> In y l -> g x = g y -> x = y) -> NoDup l -> NoDup (map g l).
-  Proof.
-    induction l as [|z l IHl]; simpl; intros; constructor; inversion H0; subst.
-    - intro Hin. apply in_map_iff in Hin. destruct Hin as [y [Hy Hin]].
-      assert (y = z) by (apply H; auto). subst; auto.
-    - apply IHl; auto.
-  Qed.
-
   Lemma s_next_inv : forall as', Inv L (s_next as').
   Proof.
     intros as'. pose proof step_guard as GD.
